@@ -161,6 +161,14 @@ def _write_path(d, xs):
 
 def lattice_config(c):
     n = c["nintf"]
+    cfg = _lattice_config(c)
+    if c.get("cap") is not None:
+        cfg["simulation"]["tis_set"]["interface_cap"] = float(c["cap"])
+    return cfg
+
+
+def _lattice_config(c):
+    n = c["nintf"]
     return {
         "runner": {"workers": c["workers"], "wmdrun": ["x"] * c["workers"]},
         "simulation": {"interfaces": [(k + 0.5) * 0.25 for k in range(n)], "steps": c["steps"], "seed": c["seed"],
@@ -197,6 +205,8 @@ def prepare(op):
         cfg["simulation"]["steps"] = c["steps"]
         cfg["simulation"]["shooting_moves"] = list(c["moves"])
         cfg["simulation"]["tis_set"]["allowmaxlength"] = bool(c.get("allowmaxlength", True))
+        if c.get("cap") is not None:
+            cfg["simulation"]["tis_set"]["interface_cap"] = float(c["cap"])
         cfg["runner"]["workers"] = c["workers"]
         cfg["output"]["screen"] = 0
         cfg["output"]["pattern"] = 0
